@@ -343,6 +343,8 @@ def enc_req(req):
 def encode(case):
     if case['kind'] == 'rule':
         return [3, int(case['reset'])] + list(case['ids'])
+    if case.get('retention'):
+        return [4, int(case['peek']), len(SHARED), len(case['reqs'])] + enc_req(case['reqs'][0])
     eh = list({code: (code, spec) for code, spec in case['eh']}.values())
     return ([case.get('variant', 0), int(case['peek']), len(SHARED)] + enc_list(eh, c3.enc_eh)
             + enc_list(case['reqs'], enc_req))
@@ -356,8 +358,6 @@ def decode(out, case):
     tbs = q.list(lambda z: z.list(lambda y: y.int()))
     alive = sorted(set(q.list(lambda z: z.int())))
     resp = [dict(events=ev, escaped=False) for ev in rs]
-    if case.get('retention'):
-        resp = resp[-1:]
     return dict(responses=resp, tb=tbs, alive=alive)
 
 
